@@ -391,6 +391,7 @@ type tState struct {
 	hFinished  atomic.Bool
 	hStarted   atomic.Bool
 	hPanicked  atomic.Bool
+	recovered  atomic.Bool // the recovery middleware handled a panic (it logged it)
 	reqCtx     context.Context
 	retTimeout atomic.Bool
 	prog       []string
@@ -445,8 +446,9 @@ func tRun(c *router.Context, s *tState, acts []string) {
 		case "sH":
 			s.goH()
 		case "hold":
-			// overrun by many budgets; correct code keeps ServeHTTP blocked on <-done the whole time,
-			// so `returned` can only be closed early if the middleware gave up waiting
+			// overrun by many budgets (60 ms when only the harness ends the budget); correct code keeps
+			// ServeHTTP blocked on <-done the whole time, so `returned` can only be closed early if the
+			// middleware gave up waiting
 			select {
 			case <-s.returned:
 			case <-time.After(s.hold):
@@ -483,19 +485,34 @@ func timeoutHandler(c *router.Context, d time.Duration) {
 	close(s.tWritten)
 }
 
+// flagHandler is the slog handler behind recovery.WithLogger: recovery logs every panic it handles
+// ("a panic ... is re-raised to recovery" is observed here, whatever becomes of recovery's response).
+type flagHandler struct{ f *atomic.Bool }
+
+func (h flagHandler) Enabled(context.Context, slog.Level) bool { return true }
+func (h flagHandler) Handle(context.Context, slog.Record) error {
+	h.f.Store(true)
+	return nil
+}
+func (h flagHandler) WithAttrs([]slog.Attr) slog.Handler { return h }
+func (h flagHandler) WithGroup(string) slog.Handler      { return h }
+
 type tObs struct {
 	Status        int
 	Body          []int
 	Escaped       int
 	ReleasedEarly bool
 	HPanicked     bool
+	Recovered     bool
 	Follow        int
 	Discard       string
 }
 
 func runT(c tCase) tObs {
+	s := &tState{tEntered: make(chan struct{}), tWritten: make(chan struct{}), hGo: make(chan struct{}), returned: make(chan struct{}),
+		hExit: make(chan struct{}), prog: c.Prog, waitH: c.WaitH}
 	r := router.MustNew()
-	r.Use(recovery.New(recovery.WithoutLogging()))
+	r.Use(recovery.New(recovery.WithLogger(slog.New(flagHandler{&s.recovered}))))
 	for i := 0; i < c.Pre; i++ {
 		r.Use(func(c *router.Context) { c.Next() })
 	}
@@ -519,8 +536,10 @@ func runT(c tCase) tObs {
 	r.GET("/t", hs...)
 	r.GET("/ok", func(c *router.Context) { _ = c.JSON(cx.StatusOf(okHid), map[string]int{"h": okHid}) })
 
-	s := &tState{tEntered: make(chan struct{}), tWritten: make(chan struct{}), hGo: make(chan struct{}), returned: make(chan struct{}),
-		hExit: make(chan struct{}), prog: c.Prog, waitH: c.WaitH, hold: 6 * budget}
+	s.hold = 6 * budget
+	if c.Budget == 0 {
+		s.hold = 60 * time.Millisecond
+	}
 	s.parent = &ctlCtx{Context: context.WithValue(context.Background(), tKey{}, s), done: make(chan struct{})}
 	req := httptest.NewRequest(http.MethodGet, "/t", nil).WithContext(s.parent)
 	rec := httptest.NewRecorder()
@@ -561,6 +580,7 @@ func runT(c tCase) tObs {
 		o.Discard = "awaitRet fell back to its 3s timer"
 	}
 	o.HPanicked = s.hPanicked.Load()
+	o.Recovered = s.recovered.Load()
 	o.Status = rec.Code
 	o.Body = cx.ParseBody(rec.Body.Bytes())
 	// follow-up on the same router
@@ -590,12 +610,6 @@ func emitT(id string, c tCase, st *hx.Stats) string {
 	if skipped() {
 		return ""
 	}
-	if raceBuild && hasAct(c.Prog, "X") {
-		if st != nil {
-			st.Count("T_skipped_under_race_K10b")
-		}
-		return fmt.Sprintf("# %s skipped in the -race build: parent cancel races by construction (K10b)%s", id, hx.Comment(c))
-	}
 	l := hx.NewLine(id).Tok("T").Bool(c.WaitH).Bool(c.Custom).Nat(c.Budget)
 	fl := c.flat()
 	l.Nat(len(fl))
@@ -604,7 +618,7 @@ func emitT(id string, c tCase, st *hx.Stats) string {
 	}
 	in := l.String()
 	l.Sep()
-	announce(l.String() + " 0 0 1 9 1 1 0" + hx.Comment(c))
+	announce(l.String() + " 0 0 1 9 1 1 0 0" + hx.Comment(c))
 	o := runT(c)
 	if o.Discard != "" {
 		if st != nil {
@@ -619,7 +633,7 @@ func emitT(id string, c tCase, st *hx.Stats) string {
 	} else {
 		l.Nat(1).Nat(o.Escaped)
 	}
-	l.Bool(o.ReleasedEarly).Bool(o.HPanicked).Nat(o.Follow)
+	l.Bool(o.ReleasedEarly).Bool(o.HPanicked).Bool(o.Recovered).Nat(o.Follow)
 	if st != nil {
 		st.Case(in[len(id):], true)
 		st.Count("T_status_" + strconv.Itoa(o.Status))
@@ -633,15 +647,20 @@ func emitT(id string, c tCase, st *hx.Stats) string {
 
 // genT draws a handler program from a grammar whose event order is fully forced by channels:
 //
-//	prog     = W{0..2} ( end | panic | deadline | cancel )
+//	prog     = end | panic | deadline | cancel | W{1..2} ( end | panic | started | cancel )
 //	deadline = D aC aE [ W{0..2} sH ]   aT W{0..2} ( end | panic )     the bracket only with waitH
 //	         | D aC aE [ W{0..1} ] panic                               only with waitH
-//	cancel   = X aC aR ( end | W | panic )
+//	started  = D aC W{0..2} ( end | panic )          the chain owns the response: no timeout handler
+//	cancel   = X aC [ hold ] ( end | W | panic )
 //
-// Every program with a deadline uses the custom timeout handler: after `D aC aE` thread R is provably
-// past its select (inside the timeout handler), and the handler goroutine does not finish before
-// `aT` (or before the timeout handler is blocked on it) — otherwise Go's select could see `done`
-// and `ctx.Done()` ready at once and the outcome would be a coin toss.
+// Every program whose deadline passes on an untouched response uses the custom timeout handler: after
+// `D aC aE` thread R is provably past its select (inside the timeout handler), and the handler
+// goroutine does not finish before `aT` (or before the timeout handler is blocked on it) — otherwise
+// Go's select could see `done` and `ctx.Done()` ready at once and the outcome would be a coin toss.
+// In `started` and `cancel` that coin toss is harmless: either way the middleware sends nothing, waits
+// for the handler and re-raises its panic (the driver rejects a case whose two fair schedules differ).
+// `hold` keeps the handler running for a while after the event: a middleware that returns without
+// waiting is seen as "released early".
 func genT(r *hx.Rand, st *hx.Stats) (c tCase) {
 	c = tCase{Kind: "T", Pre: r.Intn(2)}
 	w := func(n int) []string { // 0..n writes
@@ -676,7 +695,10 @@ func genT(r *hx.Rand, st *hx.Stats) (c tCase) {
 			return
 		}
 		if r.Chance(1, 3) {
-			c.Wrap = &tWrap{Pre: w(1), Post: w(1)}
+			c.Wrap = &tWrap{Post: w(1)}
+			if !hasAct(c.Prog, "aE") { // a write in front of the main handler starts the response: no timeout handler to wait for
+				c.Wrap.Pre = w(1)
+			}
 			if st != nil {
 				st.Count("T_chain_nesting_middleware")
 			}
@@ -695,7 +717,11 @@ func genT(r *hx.Rand, st *hx.Stats) (c tCase) {
 	if r.Chance(1, 45) {
 		// a straggler: real small budget, the handler ignores the context and overruns by 6 budgets
 		c.Custom, c.Budget = true, 40
-		c.Prog = append(c.Prog, "D", "aC", "aE", "aT", "hold")
+		if len(c.Prog) > 0 {
+			c.Prog = append(c.Prog, "D", "aC", "hold")
+		} else {
+			c.Prog = append(c.Prog, "D", "aC", "aE", "aT", "hold")
+		}
 		if r.Chance(1, 3) {
 			c.Prog = append(c.Prog, pv())
 		}
@@ -715,6 +741,15 @@ func genT(r *hx.Rand, st *hx.Stats) (c tCase) {
 		name += "panics"
 		c.Custom = r.Chance(1, 2)
 		c.Prog = append(c.Prog, pv())
+	case k < 15 && len(c.Prog) > 0:
+		// the chain has started the response before the deadline passes: it stays the chain's
+		name += "deadline"
+		c.Custom = r.Chance(1, 2)
+		c.Prog = append(append(c.Prog, "D", "aC"), w(2)...)
+		if r.Chance(1, 3) {
+			name += "_then_panic"
+			c.Prog = append(c.Prog, pv())
+		}
 	case k < 15:
 		c.Custom = true
 		c.Prog = append(c.Prog, "D", "aC", "aE")
@@ -746,7 +781,11 @@ func genT(r *hx.Rand, st *hx.Stats) (c tCase) {
 	default:
 		name += "parent_cancel"
 		c.Custom = r.Chance(1, 2)
-		c.Prog = append(c.Prog, "X", "aC", "aR")
+		c.Prog = append(c.Prog, "X", "aC")
+		if r.Chance(1, 6) {
+			name += "_handler_goes_on_for_a_while"
+			c.Prog = append(c.Prog, "hold")
+		}
 		switch r.Intn(3) {
 		case 0:
 			c.Prog = append(c.Prog, "W")
@@ -785,10 +824,10 @@ func fixedR() []rCase {
 
 func fixedT() []tCase {
 	return []tCase{
-		{Kind: "T", Custom: true, Prog: []string{"D", "aC", "aE", "aT", "W"}},                                // K10a: handler writes behind the 408 body
-		{Kind: "T", Custom: true, Prog: []string{"W", "D", "aC", "aE", "aT"}},                                // K10a: 408 body behind the handler's output
-		{Kind: "T", Prog: []string{"X", "aC", "aR"}},                                                         // K10b
-		{Kind: "T", Custom: true, Prog: []string{"D", "aC", "aE", "aT", "P0"}},                               // K10d
+		{Kind: "T", Custom: true, Prog: []string{"D", "aC", "aE", "aT", "W"}},                                // K10a: as shipped the handler's write landed behind the 408 body
+		{Kind: "T", Custom: true, Prog: []string{"W", "D", "aC", "hold", "W"}},                               // K10a: as shipped the 408 body landed behind the handler's output
+		{Kind: "T", Prog: []string{"X", "aC", "hold", "P1"}},                                                 // K10b: as shipped ServeHTTP returned while the handler was running, the panic was dropped
+		{Kind: "T", Custom: true, Prog: []string{"D", "aC", "aE", "aT", "P0"}},                               // K10d: as shipped recovery's 500 body landed behind the 408 body
 		{Kind: "T", Custom: true, Prog: []string{"D", "aC", "aE", "aT"}},                                     // the good case: one timeout response
 		{Kind: "T", Custom: true, Budget: 40, Prog: []string{"D", "aC", "aE", "aT", "hold"}},                 // straggler: ServeHTTP must wait however long it takes
 		{Kind: "T", Custom: true, Budget: 40, Prog: []string{"aC", "aE", "aT"}, Tail: [][]string{{}, {"W"}}}, // real deadline, first of three flat handlers overruns silently
@@ -838,7 +877,10 @@ func supervise() {
 		fmt.Fprintln(os.Stderr, "c10: cannot find own executable:", err)
 		os.Exit(3)
 	}
-	stdin, _ := io.ReadAll(os.Stdin)
+	var stdin []byte
+	if len(os.Args) > 1 && os.Args[1] == "replay" { // gen reads nothing: never wait for an stdin that stays open
+		stdin, _ = io.ReadAll(os.Stdin)
+	}
 	w := hx.Out()
 	defer w.Flush()
 	done := 0
